@@ -10,7 +10,10 @@ import (
 	"net/http"
 	"net/http/httptest"
 	"reflect"
+	"runtime"
 	"strings"
+	"sync"
+	"sync/atomic"
 	"testing"
 
 	conformancev1 "connectrpc.com/conformance/internal/gen/proto/go/connectrpc/conformance/v1"
@@ -442,4 +445,77 @@ func TestVerifC17Responder(t *testing.T) {
 	rep.Sample(map[string]any{"sequence": "HFRW", "expect": "raw refused (headers were flushed); wire: 200, X-Handler: 1, body handler-body-1;"})
 	rep.RequireMin("raw_accepted", 100)
 	rep.RequireMin("raw_refused", 100)
+}
+
+// TestVerifC17ResponderConcurrent: the recorder of a raw response and the handler's first
+// use of the ResponseWriter may run on different goroutines (that is what the responder's
+// mutex is for). Whatever the interleaving, exactly one of them owns the wire.
+func TestVerifC17ResponderConcurrent(t *testing.T) {
+	rep := verifkit.Begin("C17", "responder-concurrent", "one goroutine plays the handler (set header, then Write or WriteHeader or Flush+Write), another records a raw response, released together by a spin barrier on a fresh rawResponseWriter over a response recorder; then finish(); oracle: raw accepted => the recorded response is exactly the raw one (no handler header, no handler bytes); raw refused => exactly the handler's; distinct = (handler's first operation, who won)")
+	defer rep.Write()
+	raw := &conformancev1.RawHTTPResponse{StatusCode: 418, Headers: []*conformancev1.Header{{Name: "X-Raw", Value: []string{"yes"}}},
+		Body: &conformancev1.RawHTTPResponse_Unary{Unary: &conformancev1.MessageContents{Data: &conformancev1.MessageContents_Text{Text: "raw"}}}}
+	n := verifkit.Scale(60000, 600000)
+	for i := 0; i < n; i++ {
+		rep.Eval(1)
+		first := i % 3
+		recd := httptest.NewRecorder()
+		rw := &rawResponseWriter{respWriter: recd}
+		snapshot := recd.Header().Clone()
+		var ready atomic.Int32
+		var accepted bool
+		var wg sync.WaitGroup
+		wg.Add(2)
+		go func() {
+			defer wg.Done()
+			ready.Add(1)
+			for ready.Load() < 2 {
+			}
+			rw.Header().Set("X-Handler", "1")
+			switch first {
+			case 0:
+				_, _ = rw.Write([]byte("handler"))
+			case 1:
+				rw.WriteHeader(201)
+				_, _ = rw.Write([]byte("handler"))
+			case 2:
+				rw.Flush()
+				_, _ = rw.Write([]byte("handler"))
+			}
+		}()
+		go func() {
+			defer wg.Done()
+			ready.Add(1)
+			for ready.Load() < 2 {
+			}
+			if i%2 == 1 {
+				runtime.Gosched()
+			}
+			accepted = rw.setRawResponse(raw)
+		}()
+		wg.Wait()
+		rw.finish(snapshot)
+		res := recd.Result()
+		body, _ := io.ReadAll(res.Body)
+		w := map[string]any{"handler_first_operation(0=Write,1=WriteHeader,2=Flush)": first, "raw_accepted": accepted, "status": res.StatusCode, "x_raw": res.Header.Get("X-Raw"), "x_handler": res.Header.Get("X-Handler"), "body": string(body)}
+		rep.DistinctKey(first, accepted)
+		if accepted {
+			rep.Count("concurrent_raw_won", 1)
+			if res.StatusCode != 418 || res.Header.Get("X-Raw") != "yes" || res.Header.Get("X-Handler") != "" || string(body) != "raw" {
+				rep.Violation("raw/responder/concurrent/accepted-but-handler-output-on-wire", fmt.Sprintf("raw response accepted but the response is status %d, X-Raw %q, X-Handler %q, body %q", res.StatusCode, res.Header.Get("X-Raw"), res.Header.Get("X-Handler"), body), w)
+			}
+		} else {
+			rep.Count("concurrent_handler_won", 1)
+			wantStatus := 200
+			if first == 1 {
+				wantStatus = 201
+			}
+			if res.StatusCode != wantStatus || res.Header.Get("X-Raw") != "" || res.Header.Get("X-Handler") != "1" || string(body) != "handler" {
+				rep.Violation("raw/responder/concurrent/refused-but-response-damaged", fmt.Sprintf("raw response refused but the response is status %d (want %d), X-Raw %q, X-Handler %q, body %q", res.StatusCode, wantStatus, res.Header.Get("X-Raw"), res.Header.Get("X-Handler"), body), w)
+			}
+		}
+	}
+	rep.Sample(map[string]any{"interleaving": "setRawResponse between the handler's header set and its Write", "expect": "either 418/raw or 200/handler, never a mix"})
+	rep.RequireMin("concurrent_raw_won", 20)
+	rep.RequireMin("concurrent_handler_won", 20)
 }
